@@ -426,6 +426,24 @@ def py_check_dump(line, outline):
 # the check
 # ---------------------------------------------------------------------------------------------------------------------
 
+def stage_g(ctx):
+    """Regenerate lean/XzVerif/Gen/C08.lean from the source: `in_chunk_max` of worker_encode() is a function-local
+    `static const size_t`, unreachable for a compiled probe, so it is cut out of the source text."""
+    try:
+        src = open(os.path.join(vlib.REPO, TU)).read()
+    except Exception as e:
+        return False, "cannot read %s: %r" % (TU, e)
+    m = re.findall(r"static\s+const\s+size_t\s+in_chunk_max\s*=\s*(\d+)\s*;", src)
+    if len(m) != 1:
+        return False, "expected exactly one `static const size_t in_chunk_max = <decimal>;` in %s, found %d" % (TU, len(m))
+    body = ("/- REGENERATED by tools/props/c08.py (stage G) from src/liblzma/common/stream_encoder_mt.c. Do not edit. -/\n"
+            "namespace XzVerif.Gen.C08\n\n"
+            "/-- `in_chunk_max` of worker_encode(): input bytes given to the Block encoder per critical section. -/\n"
+            "def inChunkMax : Nat := %s\n\nend XzVerif.Gen.C08\n" % m[0])
+    vlib.write_if_changed(vlib.module_path("XzVerif.Gen.C08"), body)
+    return True, ""
+
+
 def hook_applied():
     try:
         src = open(os.path.join(vlib.REPO, TU)).read()
@@ -548,11 +566,15 @@ def run(ctx):
         "the single-threaded decoders of the same liblzma are the decode oracle (subset cross-checked by python's system liblzma and an independent container parser)",
         "data races / memory safety are observed at run time (ASan+UBSan always, TSan in the thorough tier), not proved",
     ]
+    # ---- G
+    okg, logg = stage_g(ctx)
+    if not okg:
+        ctx.obligation_broken("stage G: Gen/C08.lean cannot be regenerated from stream_encoder_mt.c", logg)
     # ---- P
     p_ok = True
     have_model = os.path.exists(vlib.module_path("XzVerif.Props.C08"))
     if have_model:
-        p_ok = ctx.lean_stage(["XzVerif.Props.C08"], exes=["xzm_c08"])
+        p_ok = ctx.lean_stage(["XzVerif.Props.C08"], exes=["xzm_c08"]) if okg else False
     else:
         ctx.obligation_broken("Props/C08.lean missing", "the Lean model has not been written")
         p_ok = False
